@@ -26,7 +26,7 @@ type msess struct {
 	Idle         int // dead after this harness second; unspecified exactly at it
 	HasAbs       bool
 	AbsLo, AbsHi int    // must be live before AbsLo, must be dead after AbsHi
-	Origin       string // create | regen | reset: how the session got its current id
+	Origin       string // create | reset, "+regenerate" appended: where the absolute lifetime comes from
 }
 
 type model struct {
@@ -277,7 +277,14 @@ func (w *world) judgeSession(op Op, o *obsT, info *stepInfo) *viol {
 			return vio("id-not-generated-after-"+kind+" "+tag, "the session's new id was not produced by the KeyGenerator during this request", map[string]any{"id": id, "generated": o.Gen}, "id generated now")
 		}
 		cur.id = id
-		cur.origin = kind
+		// origin names how the session's absolute lifetime came about: Reset starts a new
+		// one, Regenerate continues the one it found
+		switch {
+		case kind == "reset":
+			cur.origin = "reset"
+		case !strings.HasSuffix(cur.origin, "+"+kind):
+			cur.origin += "+" + kind
+		}
 		if m.cfg.Abs {
 			cur.hasAbs = true
 			if !resumed || t+AbsS < cur.absLo {
